@@ -17,6 +17,8 @@ package main
 //     24 n (slot id)*  write a .PASSWDS of n records, all with the empty id except the listed slots (sparse form of 20, for the large tables of the docker build)
 //     30 ids...    set the lookup battery    31 h...   set the buckets whose chains are printed
 //     32 slot...   print the ids of these slots only instead of all MAX_USERS (the docker build has 2 000 000); "32" alone goes back to all
+//     33 mode      BBSHOME/.PASSWDS becomes a regular file (0) / a symbolic link to the table in another directory (1 absolute, 2 relative, 3 link to a link), same records
+//     34 k op..    op is executed by the long-lived attached process k (0..2), which stays attached until the history ends (c04env.go)
 // Every op prints  <status> <code> [13 bytes for 13/14/15 | n uids for 25]  followed by the observation
 //   Number Loaded <#heads != -1> nb (h k slot*k end)*nb  <MAX_USERS*13 id bytes, or 13 bytes per watched slot after op 32>  nl uid*nl
 // where the chains are walked in the attached memory (end: -1 proper, -2 link out of range, -3 longer than MAX_USERS).
@@ -53,6 +55,8 @@ type c04State struct {
 	battery []*ptttype.UserID_t
 	buckets []int64
 	slots   []int64 // nil: every slot is printed
+	mode    int     // how BBSHOME/.PASSWDS reaches the table (op 33, c04env.go)
+	peers   [c04MaxPeers]*c04Peer
 }
 
 func c04ID(toks []string) *ptttype.UserID_t {
@@ -158,7 +162,7 @@ func c04Search(q *ptttype.UserID_t) (res string) {
 }
 
 // op 24: n records, the empty id everywhere except at the listed slots
-func c04WritePasswdSparse(toks []string) {
+func c04WritePasswdSparse(toks []string, mode int) {
 	n := int(ai(toks[0]))
 	w := 1 + int(ptttype.USER_ID_SZ)
 	if n < 0 || n > int(ptttype.MAX_USERS)+8 || (len(toks)-1)%w != 0 {
@@ -175,17 +179,17 @@ func c04WritePasswdSparse(toks []string) {
 		id := c04ID(toks[i+1 : i+w])
 		copy(buf[slot*sz+off:], id[:])
 	}
-	must(os.WriteFile(ptttype.FN_PASSWD, buf, 0o600))
+	c04PutPasswd(buf, mode)
 }
 
-func c04WritePasswd(ids []*ptttype.UserID_t) {
+func c04WritePasswd(ids []*ptttype.UserID_t, mode int) {
 	sz := int(ptttype.USEREC_RAW_SZ)
 	off := int(unsafe.Offsetof(ptttype.USEREC_RAW.UserID))
 	buf := make([]byte, sz*len(ids))
 	for i, id := range ids {
 		copy(buf[i*sz+off:], id[:])
 	}
-	must(os.WriteFile(ptttype.FN_PASSWD, buf, 0o600))
+	c04PutPasswd(buf, mode)
 }
 
 // second process: attach, look the battery up, leave without removing the segment
@@ -296,7 +300,7 @@ func c04Step(st *c04State, g []string) (res []string) {
 		}
 		return append([]string{"0", "0"}, ob(id[:])...)
 	case 20:
-		c04WritePasswd(c04IDs(g[1:]))
+		c04WritePasswd(c04IDs(g[1:]), st.mode)
 		return []string{"0", "0"}
 	case 21:
 		return c04Err(cache.LoadUHash())
@@ -304,7 +308,7 @@ func c04Step(st *c04State, g []string) (res []string) {
 		if len(g) < 2 {
 			panic("badcase:sparse")
 		}
-		c04WritePasswdSparse(g[1:])
+		c04WritePasswdSparse(g[1:], st.mode)
 		return []string{"0", "0"}
 	case 22:
 		cache.Shm.Reset()
@@ -346,6 +350,17 @@ func c04Step(st *c04State, g []string) (res []string) {
 			panic("badcase:proc2 mode")
 		}
 		return c04Proc2(g[1], g[2:])
+	case 33:
+		if len(g) != 2 {
+			panic("badcase:passwd mode")
+		}
+		c04Relink(st, int(ai(g[1])))
+		return []string{"0", "0"}
+	case 34:
+		if len(g) < 3 {
+			panic("badcase:peer")
+		}
+		return c04ByPeer(st, int(ai(g[1])), g[2:])
 	case 30:
 		st.battery = c04IDs(g[1:])
 		return []string{"0", "0"}
@@ -450,8 +465,9 @@ func init() {
 			switch top {
 			case 1:
 				cache.Shm.Reset()
-				c04WritePasswd(nil)
+				c04WritePasswd(nil, 0)
 				st := &c04State{}
+				defer c04StopPeers(st)
 				out := []string{"0"}
 				for _, g := range args[1:] {
 					if len(g) < 1 {
